@@ -35,7 +35,7 @@ def gen_case(rng, thorough):
                 # position of the same tier (a shared default); every registration stays a registration of its own
                 src = rng.choice(same)
                 im = dict(src[2], owner=owner if rng.random() < 0.5 else src[2]['owner'], tier=rng.choice([tier, src[2]['tier']]),
-                          same_as=src[2].get('same_as', src[1]))
+                          same_as=src[2].get('same_as', src[1]), via_hf=rng.random() < 0.5)
                 shared = True
             ops.append(('register', next_id, im))
             live.append(next_id)
@@ -162,6 +162,41 @@ def ser(case):
     return json.loads(json.dumps({'hier': case['hier'], 'nhooks': case['nhooks'], 'ops': case['ops']}, default=str))
 
 
+def first_touch_oracle(chk):
+    """the outcome does not depend on the instance through which a hook was first touched: two instances of one class, an implementation that reads
+    the same hook of the other instance; the pair of values must not depend on which instance is read first"""
+    from typing import Any
+    from pyroll.core.hooks import Hook, HookHost
+
+    def run_(first, wrapper):
+        class H(HookHost):
+            x = Hook[Any]()
+        H.x(lambda self: 1)
+        if wrapper:
+            def f(self, cycle):
+                if cycle:
+                    return None
+                o = self.__dict__.get("other")
+                inner = yield
+                return inner + 10 + (o.x if o is not None else 0)
+        else:
+            def f(self, cycle):
+                o = self.__dict__.get("other")
+                return None if cycle else 10 + (o.x if o is not None else 0)
+        H.x(f, wrapper=wrapper)
+        a, b = H(), H()
+        a.other = b
+        (a if first == "a" else b).x
+        return a.x, b.x
+    for wrapper in (False, True):
+        ra, rb = run_("a", wrapper), run_("b", wrapper)
+        chk.cov['evaluations'] += 2
+        if ra != rb:
+            chk.fail('cross-instance-first-touch', f"two instances a, b of one class, a {'wrapper' if wrapper else 'cycle-aware implementation'} of hook x that reads "
+                     f"x of the other instance (a.other = b): (a.x, b.x) = {ra} when a is read first, {rb} when b is read first", {'wrapper': wrapper})
+            return
+
+
 def run(chk):
     chk.coq.add_prop_file('C01.v')
     chk.coq.compile('C01.v', is_props=True, timeout=900)
@@ -195,6 +230,7 @@ def run(chk):
     chk.cov['distinct_nontrivial'] += len(seen)
     if shrunk and not chk.failures:
         X.report_deviation(chk, shrunk[0][0], shrunk[0][1], 'dev')
+    first_touch_oracle(chk)
     chk.sample(ser(cases[0]))
     chk.cov['rule'] = ("seeded random class hierarchies (chains, diamonds, mixins, trees; hooks re-declared in subclasses) x histories "
                        "of register (plain/wrapper, three tiers, any owner) / remove / remove-via-other-class / class touches / reads "
